@@ -65,7 +65,7 @@ package bufimagemodify
 //@   property C18
 //@   callback pure getOptionFunc
 //@   callback pure checkOptionSetFunc
-//@   modifies heap, ghost.cbCalls, ghost.cbArgs, ghost.cbArg0, ghost.cbArg1, ghost.cbArg2, ghost.markCount
+//@   modifies heap, ghost.cbCalls, ghost.cbArgs, ghost.cbArg0, ghost.cbArg1, ghost.cbArg2, ghost.cbArg3, ghost.markCount
 //@   requires validRel(imageFile.Path()) && (forall i int :: 0 <= i && i < len(config.Disables()) ==> config.Disables()[i].Path() == "" || validRel(config.Disables()[i].Path())) && (forall i int :: 0 <= i && i < len(config.Overrides()) ==> config.Overrides()[i].Path() == "" || validRel(config.Overrides()[i].Path()))
 //@   ensures disabled-untouched: isFileOptionDisabledForFile(imageFile, fileOption, config) ==> err == nil && ghost.cbCalls == old(ghost.cbCalls) && ghost.markCount == old(ghost.markCount)
 //@   ensures marks-exactly-rewrites: ghost.markCount - old(ghost.markCount) == ghost.cbCalls[setOptionFunc] - old(ghost.cbCalls)[setOptionFunc] && ghost.markCount - old(ghost.markCount) <= 1 && ghost.markCount >= old(ghost.markCount)
@@ -77,7 +77,7 @@ package bufimagemodify
 //@   callback pure checkOptionSetFunc
 //@   callback pure defaultOptionsFunc
 //@   callback pure valueFunc
-//@   modifies heap, ghost.cbCalls, ghost.cbArgs, ghost.cbArg0, ghost.cbArg1, ghost.cbArg2, ghost.markCount
+//@   modifies heap, ghost.cbCalls, ghost.cbArgs, ghost.cbArg0, ghost.cbArg1, ghost.cbArg2, ghost.cbArg3, ghost.markCount
 //@   requires validRel(imageFile.Path()) && (forall i int :: 0 <= i && i < len(config.Disables()) ==> config.Disables()[i].Path() == "" || validRel(config.Disables()[i].Path())) && (forall i int :: 0 <= i && i < len(config.Overrides()) ==> config.Overrides()[i].Path() == "" || validRel(config.Overrides()[i].Path()))
 //@   ensures disabled-untouched: isFileOptionDisabledForFile(imageFile, valueOption, config) ==> err == nil && ghost.cbCalls == old(ghost.cbCalls) && ghost.markCount == old(ghost.markCount)
 //@   ensures marks-exactly-rewrites: ghost.markCount - old(ghost.markCount) == ghost.cbCalls[setOptionFunc] - old(ghost.cbCalls)[setOptionFunc] && ghost.markCount - old(ghost.markCount) <= 1 && ghost.markCount >= old(ghost.markCount)
@@ -90,7 +90,7 @@ package bufimagemodify
 // With managed mode disabled nothing is called at all; otherwise no modifier ever sees a well-known-type file.
 //@ func modifyImage(image, config, modifyFuncs, options) (err)
 //@   property C18
-//@   modifies heap, ghost.cbCalls, ghost.cbArgs, ghost.cbArg0, ghost.cbArg1, ghost.cbArg2, ghost.sweepCount, ghost.fail, ghost.wfail
+//@   modifies heap, ghost.cbCalls, ghost.cbArgs, ghost.cbArg0, ghost.cbArg1, ghost.cbArg2, ghost.cbArg3, ghost.sweepCount, ghost.fail, ghost.wfail
 //@   ensures disabled-untouched: !config.Enabled() ==> err == nil && ghost.cbCalls == old(ghost.cbCalls) && ghost.cbArgs == old(ghost.cbArgs) && ghost.sweepCount == old(ghost.sweepCount)
 //@   ensures wkt-never-modified: forall x ref :: x in ghost.cbArg1 && !(x in old(ghost.cbArg1)) ==> (exists i int :: 0 <= i && i < len(image.Files()) && x == image.Files()[i] && !datawkt.Exists(image.Files()[i].Path()))
 //@   loop 0 invariant forall x ref :: x in ghost.cbArg1 && !(x in old(ghost.cbArg1)) ==> (exists i int :: 0 <= i && i < $i0 && x == image.Files()[i] && !datawkt.Exists(image.Files()[i].Path()))
